@@ -18,7 +18,8 @@ CONSTANTS N,          \* records sent (<= 4)
           K,          \* adversary actions (<= 2)
           Regions,    \* byte regions of a record a Flip can hit
           InjKinds,   \* kinds of forged records
-          PadAuth     \* every byte of a record is authenticated (FALSE: SSL 3.0 block ciphers)
+          PadAuth,    \* every byte of a record is authenticated (FALSE: SSL 3.0 block ciphers)
+          MaxPost     \* further Read calls the application makes after it got the error
 
 \* SSL 3.0 block-cipher records end in padding whose content is arbitrary and not covered by the
 \* MAC (the protocol weakness behind POODLE): an edit that only reaches the padding -- garbling the
@@ -47,11 +48,14 @@ VARIABLES wire,       \* Seq of wire records after the adversary's edits
           seq,        \* receiver: records accepted = sequence number     (Layer M)
           skew,       \* receiver: record boundaries lost (a lengthened record was accepted) (Layer M)
           delivered,  \* Seq of wire records handed to the application    (observable)
-          err         \* "none" or the class of the error reported        (observable)
-vars == <<wire, nacts, phase, pos, seq, skew, delivered, err>>
+          err,        \* "none" or the class of the error reported        (observable)
+          atErr,      \* how much had been delivered when the error was reported (history)
+          post        \* Read calls made after the error
+vars == <<wire, nacts, phase, pos, seq, skew, delivered, err, atErr, post>>
 
 Init == /\ wire = Original /\ nacts = 0 /\ phase = "adv"
         /\ pos = 1 /\ seq = 0 /\ skew = FALSE /\ delivered = <<>> /\ err = "none"
+        /\ atErr = 0 /\ post = 0
 
 \* ------------------------------------------------------------------ adversary
 Whole(i) == wire[i].part = "full"
@@ -60,7 +64,7 @@ RemoveAt(s, k) == SubSeq(s, 1, k - 1) \o SubSeq(s, k + 1, Len(s))
 \* an incomplete record can only be the end of the stream: truncation is the last edit
 NoPartial == \A i \in 1..Len(wire) : Whole(i)
 Act == phase = "adv" /\ nacts < K /\ nacts' = nacts + 1 /\ NoPartial
-       /\ UNCHANGED <<phase, pos, seq, skew, delivered, err>>
+       /\ UNCHANGED <<phase, pos, seq, skew, delivered, err, atErr, post>>
 
 Flip(i, g) == /\ Act /\ i \in 1..Len(wire) /\ wire[i].mod = "none" /\ wire[i].inj = "none"
               /\ wire' = [wire EXCEPT ![i].mod = g]
@@ -83,7 +87,7 @@ Adversary == \/ \E i \in 1..(N + K), g \in Regions : Flip(i, g)
              \/ \E j \in 0..(N + K), k \in InjKinds : Inject(j, k)
 
 Release == /\ phase = "adv" /\ phase' = "recv"
-           /\ UNCHANGED <<wire, nacts, pos, seq, skew, delivered, err>>
+           /\ UNCHANGED <<wire, nacts, pos, seq, skew, delivered, err, atErr, post>>
 
 \* ------------------------------------------------------------------ receiver, Layer M
 \* halfConn.decrypt accepts a record iff it is complete, untouched, and it is the
@@ -104,8 +108,9 @@ ErrOf(r) == IF r.part = "header" THEN "eof"
 
 Accept(r) == /\ delivered' = Append(delivered, r) /\ seq' = seq + 1 /\ pos' = pos + 1
              /\ skew' = (skew \/ r.mod \in HdrLength)     \* a lengthened record swallowed its successor's head
-             /\ UNCHANGED <<err, phase>>
+             /\ UNCHANGED <<err, phase, atErr>>
 Fail(e) == /\ err' = e /\ phase' = "done"                  \* first permanent error: nothing more is read
+           /\ atErr' = Len(delivered)
            /\ UNCHANGED <<pos, seq, skew, delivered>>
 
 Recv == /\ phase = "recv" /\ err = "none"
@@ -115,9 +120,15 @@ Recv == /\ phase = "recv" /\ err = "none"
                   IF Authentic(r) THEN Accept(r)
                   ELSE IF MayPass(r) THEN Accept(r) \/ Fail(ErrOf(r))
                   ELSE Fail(ErrOf(r))
-        /\ UNCHANGED <<wire, nacts>>
+        /\ UNCHANGED <<wire, nacts, post>>
 
-Next == Adversary \/ Release \/ Recv
+\* The application calls Read again after it was given the error (a retrying reader, a bufio
+\* refill): the error is permanent (halfConn.err is sticky), the call returns it and no data --
+\* whatever the record layer still holds (the block of the record that failed) stays there.
+ReadAgain == /\ phase = "done" /\ post < MaxPost /\ post' = post + 1
+             /\ UNCHANGED <<wire, nacts, phase, pos, seq, skew, delivered, err, atErr>>
+
+Next == Adversary \/ Release \/ Recv \/ ReadAgain
 Spec == Init /\ [][Next]_vars
 
 \* ------------------------------------------------------------------ Layer P
@@ -142,6 +153,8 @@ StopsAtTamper == (PadAuth /\ phase # "adv") => Len(delivered) <= CleanPrefix
 \* (with unauthenticated padding an edit confined to padding may pass unnoticed: see PadAuth)
 Detected == phase = "done" => /\ err # "none"
                               /\ (PadAuth /\ Tampered) => err # "eof"
+\* ... and nothing more, ever: after the error no later Read hands out anything and the error stays
+NothingAfterError == phase = "done" => (Len(delivered) = atErr /\ err # "none")
 \* Layer M only (diagnostic): everything in front of the first bad record is delivered
 DeliversCleanPrefix == (PadAuth /\ phase = "done") => Len(delivered) = CleanPrefix
 
